@@ -15,13 +15,20 @@ import drive
 NUMS = {"zero": 0, "one": 1, "negzerof": -0.0, "onehalf": 0.5, "p53plus1": 2 ** 53 + 1, "fmax": 1.7976931348623157e308,
         "negfmax": -1.7976931348623157e308, "int308": 10 ** 308, "int1024m1": 2 ** 1024 - 1, "denormal": 5e-324,
         "bigint": 10 ** 400,
-        "negbigint": -10 ** 400}
+        "negbigint": -10 ** 400, "int5000d": 10 ** 5000}
 STRS = {"empty": "", "nul": "\0", "paren": "(", "bracket": "a[0", "smiley": ":-)", "backslash": "\\", "long": "ab" * 5000,
         "astral": "\U0001F600", "combining": "é", "surrogate": "\ud800", "newline": "a\nb", "percent_s": "%s {0} {x}",
-        "brace": "{"}
-MULTS = {"m_half": 0.5, "m_three": 3, "m_threef": 3.0, "m_tiny": 1e-300}
+        "brace": "{", "digits30": "9" * 30, "uuid_braced": "{12345678-1234-5678-1234-567812345678}"}
+MULTS = {"m_half": 0.5, "m_three": 3, "m_threef": 3.0, "m_tiny": 1e-300, "m_bigint": 10 ** 400}
 NAMES = {"nul": "\0", "del": "\x7f", "private_use": "\ue000", "surrogate": "\ud800", "paren": "(", "space": "a b",
          "superscript": "²", "empty": "", "combining": "é", "keyword": "class", "dunder": "__init__"}
+
+
+def _srepr(v):
+    try:
+        return repr(v)[:40]
+    except ValueError:      # int beyond the interpreter's str-digits limit
+        return f"<int of {v.bit_length()} bits>"
 
 
 def atom_schema(atom, arg):
@@ -190,7 +197,7 @@ def collect(rep, tier, pid="C10"):
                 c = st["case"]
                 rep.violation(("C01", "extreme", c["atom"], c["arg"]),
                               f"{json.dumps(atom_schema(c['atom'], c['arg']), default=repr)[:120]} on {c['val']} "
-                              f"(= {repr(NUMS[c['val']])[:40]}): statham says {ob['call']}, Draft 6 says "
+                              f"(= {_srepr(NUMS[c['val']])}): statham says {ob['call']}, Draft 6 says "
                               f"{'accept' if st['expected'] == [True] else 'reject'}", dict(state=st, observed=ob))
         return dict(extreme_states=res.distinct, extreme_cases=n, extreme_tlc_states=adj)
     for si, (st, ob) in enumerate(zip(states, obs)):
